@@ -226,9 +226,9 @@ func (g *replayGen) buildObject(t types.Type, ref string) string {
 			}
 			if val, ok := g.famVal(key, ref); ok {
 				if fu.Info()&types.IsInteger != 0 {
-					fmt.Fprintf(&g.sb, "\t%s.%s = %s(%s)\n", v, f.Name(), g.typeStr(f.Type()), val)
+					fmt.Fprintf(&g.sb, "\tsonicvcSet(%s, %q, %s(%s))\n", v, f.Name(), g.typeStr(f.Type()), val)
 				} else if fu.Info()&types.IsBoolean != 0 {
-					fmt.Fprintf(&g.sb, "\t%s.%s = %s\n", v, f.Name(), val)
+					fmt.Fprintf(&g.sb, "\tsonicvcSet(%s, %q, %s)\n", v, f.Name(), val)
 				}
 			}
 		case *types.Slice:
@@ -236,12 +236,14 @@ func (g *replayGen) buildObject(t types.Type, ref string) string {
 			l, _ := g.famVal(key+"#len", ref)
 			c, _ := g.famVal(key+"#cap", ref)
 			sv := g.buildSlice(f.Type(), p, l, c)
-			fmt.Fprintf(&g.sb, "\t%s.%s = %s\n", v, f.Name(), sv)
+			if sv != "nil" {
+				fmt.Fprintf(&g.sb, "\tsonicvcSet(%s, %q, %s)\n", v, f.Name(), sv)
+			}
 		case *types.Pointer:
 			if val, ok := g.famVal(key, ref); ok && val != "0" {
 				if _, isStruct := structOf(fu.Elem()); isStruct {
 					ov := g.buildObject(fu.Elem(), val)
-					fmt.Fprintf(&g.sb, "\t%s.%s = %s\n", v, f.Name(), ov)
+					fmt.Fprintf(&g.sb, "\tsonicvcSet(%s, %q, %s)\n", v, f.Name(), ov)
 				}
 			}
 		}
@@ -422,6 +424,12 @@ func sonicvcCopyStruct(dst, src reflect.Value, depth int) {
 	}
 }
 
+// sonicvcSet assigns a (possibly unexported) field of the struct obj points to.
+func sonicvcSet(obj interface{}, field string, val interface{}) {
+	f := reflect.ValueOf(obj).Elem().FieldByName(field)
+	reflect.NewAt(f.Type(), unsafe.Pointer(f.UnsafeAddr())).Elem().Set(reflect.ValueOf(val).Convert(f.Type()))
+}
+
 func sonicvcCloneOf[T any](v T) T {
 	rv := reflect.ValueOf(&v).Elem()
 	out := reflect.New(rv.Type()).Elem()
@@ -447,7 +455,7 @@ func replayObligation(P *Program, C *Contracts, o *Obligation, repo string) (map
 	if strings.HasPrefix(o.Name, "in:") && !strings.Contains(o.Name, "/safe/") {
 		rep["note"] = "obligation inside an inlined callee"
 	}
-	fc := C.Funcs[o.Fn]
+	fc := C.lookup(o.Fn)
 	g := &replayGen{P: P, C: C, mt: buildModelTable(o), pkg: fn.Pkg.Pkg, imports: map[string]string{}, objects: map[string]string{}}
 	curReplayParams = map[string]bool{}
 	var argNames []string
@@ -479,7 +487,11 @@ func replayObligation(P *Program, C *Contracts, o *Obligation, repo string) (map
 	var clause *Clause
 	if isPost && fc != nil {
 		for k, cl := range fc.Ensures {
-			if clauseLabel(cl, k) == strings.TrimPrefix(o.Name, "post/") {
+			nm := strings.TrimPrefix(o.Name, "post/")
+			if i := strings.Index(nm, "@ret"); i >= 0 {
+				nm = nm[:i]
+			}
+			if clauseLabel(cl, k) == nm {
 				clause = cl
 			}
 		}
